@@ -80,8 +80,10 @@ def run_case(case, work, rec):
         fl = sorted(rng.sample(range(nf), min(nf, rng.randint(1, 3))))
         keys = list(pck.fields.keys())
         sels = [(f"int:{f1}", f1, [f1], True), (f"name:{keys[f1]}", keys[f1], [f1], True),
-                (f"list:{fl}", fl, fl, False), (f"names:{[keys[i] for i in fl]}", [keys[i] for i in fl], fl, False)]
-        for fd, fsel, comps, single in rng.sample(sels, 2):
+                (f"list:{fl}", fl, fl, False), (f"names:{[keys[i] for i in fl]}", [keys[i] for i in fl], fl, False),
+                # the same multiple selections as numpy arrays (what np.flatnonzero / name arrays give)
+                (f"nparr:{fl}", np.array(fl), fl, False), (f"npnames:{[keys[i] for i in fl]}", np.array([keys[i] for i in fl]), fl, False)]
+        for fd, fsel, comps, single in rng.sample(sels, 3):
             key = (digest, fd, lv, bi, ijk)
             descr = f"[{fd}] at point {pt} (centre of cell {ijk} of box {bi}, level {lv})"
             if rng.random() < 0.3:
